@@ -20,6 +20,8 @@ SIZES = {
     "C03": {"quick": (200, 8), "thorough": (900, 24)},
 }
 
+PIN_ALL_SIDS = [0, 1, 2, 4]   # schedules used for "fails everywhere" pins
+
 ASSUMPTIONS = [
     "PlantUML execution semantics of sim/puml_sem.py (AND=all branches, OR=any"
     " non-empty subset, XOR=one, loop 1..k, break leaves innermost loop, "
@@ -319,13 +321,14 @@ def build_units(prop: str, tier: str, seed: int, scale: float, findings):
     for f in findings:
         if f["property"] != prop or f.get("status") != "known":
             continue
-        pin = f.get("pin")
-        if not pin:
-            continue
-        for s in pin["sids"]:
-            if (pin["wid"], s) not in seen:
-                seen.add((pin["wid"], s))
-                units.append(grid.learn_unit(pin["wid"], s))
+        for wid, s in f.get("inputs", []):
+            sids = PIN_ALL_SIDS if s == "*" else [s]
+            if prop == "C03":
+                sids = pick_sids(prop, wid, SIZES[prop][tier][1], 0)
+            for s in sids:
+                if (wid, s) not in seen:
+                    seen.add((wid, s))
+                    units.append(grid.learn_unit(wid, s))
     count = 0
     for w in candidate_wids(seed, prop):
         if count >= nw:
@@ -429,7 +432,8 @@ def evaluate(run: CheckRun, pool, prop, units, results) -> dict:
         if prop == "C03":
             continue
         for cls in violation_classes(prop, r):
-            key = {"workload": u["wid"], "violation_class": cls}
+            key = {"workload": u["wid"], "schedule": u["sched"],
+                   "violation_class": cls}
             if core.match_known(prop, key, run.findings):
                 run.violation(key, "")
             else:
@@ -446,7 +450,8 @@ def evaluate(run: CheckRun, pool, prop, units, results) -> dict:
                     continue
                 outs.setdefault(json.dumps(o), (u, r))
             if len(outs) > 1:
-                key = {"workload": w, "violation_class": "outcome-split"}
+                key = {"workload": w, "schedule": "*",
+                       "violation_class": "outcome-split"}
                 if core.match_known(prop, key, run.findings):
                     run.violation(key, "")
                 else:
